@@ -72,6 +72,14 @@ HARNESSES = [
         ("k_decompress_fast_bounded", ["C03", "C04", "C05", "C08"], ["decompress_fast", "fill_bit_buffer", "InputWrapper::read_u32_le"],
          "B(at most 5 symbols before end-of-block, input<=18, output<=320 bytes)", "HuffmanTable::lookup, apply_match, transfer replaced by contract models"),
       )],
+    # ---- K-capi ----
+    *[H(n, "K-capi", sv, crate="capi", cost=60, timeout=900, fns=f,
+        strength="B(caller buffers <= 8 bytes; complete in every scalar parameter, stream field and callee result)",
+        note="inflate/deflate replaced by recording contract models (own contracts: K-inflate/K-deflate); std::panic::catch_unwind replaced by Ok(f()) (Kani ICE on the intrinsic; exact under panic=abort)")
+      for (n, sv, f) in (
+        ("k_capi_mz_inflate", ["C17", "C06"], ["mz_inflate", "mz_inflateInit2", "mz_inflateEnd", "mz_inflate_oxide", "mz_inflate_init2_oxide", "StreamOxide::try_new", "StreamOxide::into_mz_stream", "MZFlush::new", "as_c_return_code"]),
+        ("k_capi_custom_allocators_rejected", ["C17"], ["StreamOxide::try_new"]),
+      )],
     # ---- K-inflate (streaming wrapper against the M-decompress contract model) ----
     H("k_inflate_protocol", "K-inflate", ["C04", "C05", "C06", "C07", "C09", "C13"], fns=["inflate", "inflate_loop", "push_dict_out", "InflateState::new"],
       cost=60, strength="B(in<=3,out<=3 bytes => loop<=8 iterations, unwinding assertion on; complete in wrapper state, flags, flush, engine results)",
